@@ -1,9 +1,11 @@
 package checks
 
 import (
+	"bytes"
 	"encoding/json"
 	"fmt"
 	"os"
+	"os/exec"
 	"regexp"
 	"strconv"
 	"strings"
@@ -114,8 +116,42 @@ func c18Scenarios(tier string) []c18Scenario {
 	return out
 }
 
+// c18Race: auxiliary free-running pass under the race detector (sampling; a
+// report is a genuine race, silence is not evidence).
+func c18Race(sh *explore.Shard) {
+	if sh.I != 0 && sh.Only < 0 {
+		return
+	}
+	exe := "/verif/.build/meterrace"
+	if _, err := os.Stat(exe); err != nil {
+		sh.C.Violate(explore.Violation{Property: "C18", Class: "HARNESS/no-race-build", Msg: "the -race build of the meter driver is missing: " + err.Error(), Case: caseJSON(1<<21, nil)})
+		return
+	}
+	runs := 2
+	if sh.Tier == "thorough" {
+		runs = 6
+	}
+	for i := 0; i < runs; i++ {
+		cmd := exec.Command(exe, "200000")
+		cmd.Env = append(os.Environ(), "GORACE=halt_on_error=1 exitcode=66", fmt.Sprintf("GOMAXPROCS=%d", []int{4, 2, 16, 8, 3, 1}[i%6]))
+		var eb bytes.Buffer
+		cmd.Stderr = &eb
+		err := cmd.Run()
+		sh.C.Add("race_detector_runs", 1)
+		if bytes.Contains(eb.Bytes(), []byte("DATA RACE")) {
+			sh.C.Violate(explore.Violation{Property: "C18", Class: "race", Confirmed: true, Msg: "the race detector reports a data race in the progress meter (worker calling Inc/Add while the ticker goroutine reports): " + tailBytes(eb.Bytes(), 1500), Case: caseJSON(1<<21, map[string]any{"what": "meterrace"})})
+			return
+		}
+		if err != nil {
+			sh.C.Violate(explore.Violation{Property: "C18", Class: "HARNESS/meterrace", Msg: "the meter driver failed: " + err.Error() + " " + tailBytes(eb.Bytes(), 500), Case: caseJSON(1<<21, nil)})
+			return
+		}
+	}
+}
+
 func c18Worker(sh *explore.Shard) {
 	defer c18EndToEnd(sh)
+	defer c18Race(sh)
 	bound, ticks := 3, 2
 	if sh.Tier == "thorough" {
 		bound, ticks = 4, 3
@@ -409,6 +445,6 @@ func c18Parent(prop, tier string) int {
 
 func init() {
 	Registry["C18"] = &Check{Level: "model_checking", Worker: c18Worker, Parent: c18Parent, ReplayExe: "/verif/.build/vcheck-sched", Replay: c18Replay, QuickBudget: 60 * time.Second, ThoroughBudget: 10 * time.Minute,
-		Rule:        "the real meter/meter.go, mechanically rewritten from its current text so that every mutex, atomic, channel, select, close, ticker and go statement is a scheduling point of a cooperative scheduler (one logical thread at a time), as is every write to the meter's writer; threads: the worker (Start/Inc*/Done per phase), every ticker goroutine the code spawns, one environment thread per ticker offering 2 (quick) / 3 (thorough) ticks; ALL schedules with at most 3 (quick) / 4 (thorough) deviations from the default schedule are executed; oracle on the byte frames written to the meter's writer: exactly one LF-terminated frame per phase carrying the number of Inc calls, counts within a phase never decrease and never exceed the final count, no frame of a phase after its final line or before its Start; deadlock, panic and step-horizon are violations; every violation is confirmed by replaying its schedule twice. end-to-end: in-process scans of all commit DAGs n<=3 (all commits sharing one root tree) and the mixed family (all references walked, partial selections with a ROOT, ROOT only) and repositories of 255..2050 distinct blobs / commits+trees+blobs / chained tags (sizes around internal batch sizes) with the real meter: each phase's final line must carry the census count of its kind (references phase: number of roots processed, walked or not). states = distinct frame sequences observed; transitions = scheduling steps; non-trivial = executions whose schedule contains at least one deviation (every explored schedule is distinct)",
-		Assumptions: []string{"scheduling points sit at synchronisation operations: an unsynchronised access is invisible to the explorer (data races are looked for by the separate free-running -race pass of C17, which is sampling and decides nothing)", "ticks beyond the per-ticker bound are not explored"}}
+		Rule:        "the real meter/meter.go, mechanically rewritten from its current text so that every mutex, atomic, channel, select, close, ticker and go statement is a scheduling point of a cooperative scheduler (one logical thread at a time), as is every write to the meter's writer; threads: the worker (Start/Inc*/Done per phase), every ticker goroutine the code spawns, one environment thread per ticker offering 2 (quick) / 3 (thorough) ticks; ALL schedules with at most 3 (quick) / 4 (thorough) deviations from the default schedule are executed; oracle on the byte frames written to the meter's writer: exactly one LF-terminated frame per phase carrying the number of Inc calls, counts within a phase never decrease and never exceed the final count, no frame of a phase after its final line or before its Start; deadlock, panic and step-horizon are violations; every violation is confirmed by replaying its schedule twice. end-to-end: in-process scans of all commit DAGs n<=3 (all commits sharing one root tree) and the mixed family (all references walked, partial selections with a ROOT, ROOT only) and repositories of 255..2050 distinct blobs / commits+trees+blobs / chained tags (sizes around internal batch sizes) with the real meter: each phase's final line must carry the census count of its kind (references phase: number of roots processed, walked or not). auxiliary: 2 (6) free-running runs of a -race build of a driver that increments flat out while the meter's ticker reports every 20 us / 1 ms (a report is a violation, silence is not evidence). states = distinct frame sequences observed; transitions = scheduling steps; non-trivial = executions whose schedule contains at least one deviation (every explored schedule is distinct)",
+		Assumptions: []string{"scheduling points sit at synchronisation operations: an unsynchronised access is invisible to the explorer (data races are looked for by the separate free-running -race passes of C17 and C18, which are sampling and decide nothing by silence)", "ticks beyond the per-ticker bound are not explored"}}
 }
